@@ -74,6 +74,27 @@ CLAIMS = {
         "note": TB + " Not decided: which numbers the OS rejects; observable equality of dispositions.",
         "technique": "static analysis: def-level call-graph cut (CHA), control-dependence and dominance on MIR, constant-table decoding",
     },
+    "C15": {
+        "text": "Static constant/provenance/control-dependence rules on the three flag action closures and low_level::exit: exactly one unconditional "
+                "store of the constant true (resp. the captured value) into the caller's atomic; termination only on the true edge of a fresh load of "
+                "the caller's condition, with the captured status, through libc::_exit and nothing else; emulation of the registered signal likewise.",
+        "note": TB + " Not decided: arm/disarm histories (they follow from the per-invocation rule plus C02 order).",
+        "technique": "static analysis: constant folding, upvar provenance, control-dependence on MIR; FFI symbol check",
+    },
+    "C16": {
+        "text": "Table agreement + path order: all 30 rows of DETAILS are compared (name<->number, default kind) with the kernel's default-disposition "
+                "masks transcribed in oracle/; the terminate path is restore SIG_DFL -> unblock {signal} -> raise(signal) in dominance order and never "
+                "returns, stop raises SIGSTOP, ignore makes no call, every effect is dominated by the successful lookup. Found and repaired SIGIO.",
+        "note": TB + " Oracle transcribed from include/linux/signal.h / signal(7). Not decided: what the kernel does with the re-raised signal.",
+        "technique": "static analysis: decoded constant table vs oracle, dominance on the MIR CFG, constant arguments",
+    },
+    "C17": {
+        "text": "Sibling-table agreement across languages: clang AST of extract.c (consts[] rows, matcher condition, readers) vs the repr(u8) enum, "
+                "From<ICause> and has_process decoded from MIR, vs the sigaction(2) field-validity oracle; pid/uid readers only under has_process of "
+                "the same record; extern declarations agree.",
+        "note": TB + " clang with host glibc headers. Not decided: what the kernel writes into siginfo_t.",
+        "technique": "static analysis: cross-language table agreement (clang AST + MIR switch decoding), control-dependence",
+    },
 }
 
 PENDING = "check under construction in this round (rules designed in DESIGN.md §4); not claimed until the rule set runs clean"
